@@ -43,7 +43,15 @@ def do_request(req, base_dir=None, fixed_base=None):
             kw['max_recursion_depth'] = req['depth']
         try:
             with contextlib.redirect_stdout(io.StringIO()):
-                if req.get('short_prefix'):
+                if req.get('via_stl_list'):
+                    # a caller that builds its own input list from the public flipjump.get_stl_paths() (and extends the list it
+                    # got in place), then assembles it without the automatic stl
+                    files = flipjump.get_stl_paths()
+                    files.extend(paths)
+                    flipjump.assemble(files, out, memory_width=req['w'], fjm_version=FJMVersion(req['version']), print_time=False,
+                                      warning_as_errors=req['werror'], use_stl=False,
+                                      debugging_file_path=dbg if req.get('debug', True) else None, **kw)
+                elif req.get('short_prefix'):
                     # the lower-level entry point: the caller chooses the files' short names (they appear in label names)
                     from flipjump.assembler import assembler
                     from flipjump.fjm.fjm_writer import Writer
